@@ -39,6 +39,19 @@ def MqEnv.rounds : Nat → MqEnv → MqEnv
   | 0, e => e
   | k + 1, e => MqEnv.rounds k e.round
 
+/-- the same for the driver before the repair (`Mq.tickOld`: a command without any request leaves its
+    queue running) -/
+def reachMqOld (nGpus cycH2D cycD2H nQueues : Nat) (warm : Bool) (ops : List MqOp) : MqEnv :=
+  (MqEnv.init nGpus cycH2D cycD2H nQueues warm).runOld ops
+
+/-- a service round around the driver before the repair (`serveOps` holds no tick, so `run` and
+    `runOld` agree on it) -/
+def MqEnv.roundOld (e : MqEnv) : MqEnv := ((e.run e.serveOps).stepOld .tick).1
+
+def MqEnv.roundsOld : Nat → MqEnv → MqEnv
+  | 0, e => e
+  | k + 1, e => MqEnv.roundsOld k e.roundOld
+
 /-- every queue is empty -/
 def MqEnv.allDone (e : MqEnv) : Prop := ∀ q ∈ e.s.queues, q.cmds = []
 
